@@ -156,3 +156,130 @@ package stakepool
 //@   loop 3 invariant forall k in i..len(pools) :: pools[k].Reward == old(pools[k].Reward) + share
 //@   loop 3 invariant forall k in 0..len(pools) :: pools[k] == old(pools[k])
 //@   loop 3 decreases r - i
+
+// ---------------------------------------------------------------- stake lock / unlock (C11)
+// Event emitters and encoders used on the way: trusted frames.
+//@ func (*DelegatePool).EmitNew
+//@   trusted
+//@   modifies nothing
+//@ func newDelegatePoolUpdate
+//@   trusted
+//@   ensures result.Updates != nil && fresh(result.Updates)
+//@   modifies nothing
+//@ func (DelegatePoolUpdate).emitUpdate
+//@   trusted
+//@   modifies nothing
+//@ func toJson
+//@   trusted
+//@   modifies nothing
+
+// A lock is attempted only with the value covered by the staker's balance.
+//@ func CheckClientBalance
+//@   prop C11
+//@   ensures[value-covered-by-the-balance] err == nil ==> toLock <= $bal[acct(clientId)]
+//@   modifies nothing
+
+// Locking moves exactly the transaction's value from the staker to the contract wallet (one queued
+// transfer) and into the staker's own delegate pool - a new pool owned by the staker, or the staker's
+// existing pool grown by exactly the value; no other pool is touched; a failure queues nothing.
+//@ func (*StakePool).LockPool
+//@   prop C11
+//@   requires sp != nil && txn != nil && balances != nil && poolsMapOK(sp)
+//@   ensures[one-transfer-of-exactly-the-value] result1 == nil ==> $ntr == old($ntr) + 1 && $out[txn.ClientID] == old($out[txn.ClientID]) + txn.Value && $in[txn.ToClientID] == old($in[txn.ToClientID]) + txn.Value
+//@   ensures[into-the-stakers-own-pool] result1 == nil ==> (txn.ClientID in sp.Pools) && sp.Pools[txn.ClientID].DelegateID == txn.ClientID
+//@   ensures[pool-grows-by-exactly-the-value] result1 == nil ==> sp.Pools[txn.ClientID].Balance == (old(txn.ClientID in sp.Pools) ? old(sp.Pools[txn.ClientID].Balance) : 0) + txn.Value
+//@   ensures[no-other-pool-entry-touched] forall k string :: k != txn.ClientID ==> ((k in sp.Pools) == old(k in sp.Pools)) && (old(k in sp.Pools) ==> sp.Pools[k] == old(sp.Pools[k]))
+//@   ensures[no-other-pool-object-changed] forall k string :: old(k in sp.Pools) && old(sp.Pools[k]) != old(sp.Pools[txn.ClientID]) ==> old(sp.Pools[k]).Balance == old(sp.Pools[k].Balance) && old(sp.Pools[k]).Reward == old(sp.Pools[k].Reward)
+//@   ensures[failure-queues-nothing] result1 != nil ==> $ntr == old($ntr)
+//@   ensures[value-covered-by-the-balance] result1 == nil ==> txn.Value <= old($bal[acct(txn.ClientID)])
+
+// Collecting on unlock: the delegate's accrued reward is minted to the delegate - exactly the pool's
+// reward, which is then zero; nobody else's pool reward changes.
+//@ func 0chain.net/chaincore/chain/state.GetMinter
+//@   trusted
+//@   modifies nothing
+//@ func (*StakePool).MintRewards
+//@   prop C11
+//@   requires sp != nil && balances != nil && poolsMapOK(sp) && sp.Reward <= MAXSUPPLY
+//@   ensures[pool-reward-paid-to-its-delegate] result1 == nil && old(clientId in sp.Pools) && clientId != old(sp.Settings.DelegateWallet) ==> result0 == old(sp.Pools[clientId].Reward) && $in[clientId] == old($in[clientId]) + old(sp.Pools[clientId].Reward)
+//@   ensures[pool-reward-zeroed] result1 == nil && old(clientId in sp.Pools) ==> sp.Pools[clientId].Reward == 0 && sp.Pools[clientId].Balance == old(sp.Pools[clientId].Balance)
+//@   ensures[no-pool-entry-touched] forall k string :: ((k in sp.Pools) == old(k in sp.Pools)) && (old(k in sp.Pools) ==> sp.Pools[k] == old(sp.Pools[k]))
+//@   ensures[no-other-pool-object-changed] forall k string :: old(k in sp.Pools) && old(sp.Pools[k]) != old(sp.Pools[clientId]) ==> old(sp.Pools[k]).Balance == old(sp.Pools[k].Balance) && old(sp.Pools[k]).Reward == old(sp.Pools[k].Reward)
+
+// Emptying a delegate pool pays exactly its balance from the contract wallet to the pool's owner, who
+// must be the caller; the pool is left empty and marked deleted; a failure changes and queues nothing.
+//@ func (*StakePool).Empty
+//@   prop C11
+//@   requires sp != nil && balances != nil && poolsMapOK(sp)
+//@   ensures[only-the-pools-owner] result == nil ==> old(poolID in sp.Pools) && old(sp.Pools[poolID].DelegateID) == clientID
+//@   ensures[pays-back-exactly-the-balance] result == nil ==> $ntr == old($ntr) + 1 && $in[clientID] == old($in[clientID]) + old(sp.Pools[poolID].Balance) && $out[sscID] == old($out[sscID]) + old(sp.Pools[poolID].Balance)
+//@   ensures[pool-emptied-and-marked-deleted] result == nil ==> sp.Pools[poolID].Balance == 0 && sp.Pools[poolID].Status == 2
+//@   ensures[failure-changes-nothing] result != nil ==> $ntr == old($ntr) && (old(poolID in sp.Pools) ==> sp.Pools[poolID].Balance == old(sp.Pools[poolID].Balance) && sp.Pools[poolID].Status == old(sp.Pools[poolID].Status))
+//@   ensures[no-pool-entry-touched] forall k string :: ((k in sp.Pools) == old(k in sp.Pools)) && (old(k in sp.Pools) ==> sp.Pools[k] == old(sp.Pools[k]))
+//@   ensures[no-other-pool-object-changed] forall k string :: old(k in sp.Pools) && old(sp.Pools[k]) != old(sp.Pools[poolID]) ==> old(sp.Pools[k]).Balance == old(sp.Pools[k].Balance) && old(sp.Pools[k]).Reward == old(sp.Pools[k].Reward)
+
+// DeletePool removes only the named pool, and only once Empty has marked it deleted (status 2).
+//@ func (*StakePool).DeletePool
+//@   prop C11
+//@   requires sp != nil && balances != nil && poolsMapOK(sp)
+//@   ensures[removes-only-an-emptied-pool] forall k string :: (old(k in sp.Pools) && !(k in sp.Pools)) ==> k == clientID && old(sp.Pools[k].Status) == 2
+//@   ensures[nothing-added] forall k string :: (k in sp.Pools) ==> old(k in sp.Pools)
+
+// UnlockPool (first step of an unlock): only for an existing pool; the pool's accrued reward is
+// collected (MintRewards above), its balance and every pool entry stay as they are.
+//@ func (*StakePool).UnlockPool
+//@   prop C11
+//@   requires sp != nil && balances != nil && poolsMapOK(sp) && sp.Reward <= MAXSUPPLY
+//@   ensures[only-an-existing-pool] result1 == nil ==> old(clientID in sp.Pools)
+//@   ensures[rewards-collected-balance-kept] result1 == nil ==> sp.Pools[clientID].Reward == 0 && sp.Pools[clientID].Balance == old(sp.Pools[clientID].Balance)
+//@   ensures[no-pool-entry-touched] forall k string :: ((k in sp.Pools) == old(k in sp.Pools)) && (old(k in sp.Pools) ==> sp.Pools[k] == old(sp.Pools[k]))
+
+// The stake pool as the lock / unlock entry points see it (an interface value): names for what its
+// readers return.
+//   spNumPools(p) / spMaxDelegates(p) / spHasPool(p, id)   number of delegate pools / the provider's delegate
+//                                                          limit / whether id has a delegate pool in p
+//@ uf spNumPools (Iface) Int
+//@ uf spMaxDelegates (Iface) Int
+//@ uf spHasPool (Iface Str) Bool
+//@ iface 0chain.net/smartcontract/stakepool.AbstractStakePool.GetPools
+//@   params self
+//@   pure
+//@   ensures len(result) == spNumPools(self)
+// (AbstractStakePool.GetSettings: contract in smartcontract/provider, result.MaxNumDelegates == spMaxDelegates(self))
+//@ iface 0chain.net/smartcontract/stakepool.AbstractStakePool.HasStakePool
+//@   params self user
+//@   pure
+//@   ensures result == spHasPool(self, user)
+
+// A lock request passes validation only with a positive value of at least the configured minimum,
+// with the staker's pool (its current balance plus the value, no wrap) at most the configured maximum,
+// and - for a staker without a pool - only while the provider has fewer pools than its delegate limit.
+//@ func validateLockRequest
+//@   prop C11
+//@   requires t != nil
+//@   ensures[positive-and-at-least-the-minimum] result1 == nil ==> t.Value > 0 && t.Value >= vs.MinStake
+//@   at-return assert[pool-total-at-most-the-maximum] result1 == nil ==> poolStakeAfter == poolStakeBefore + t.Value && poolStakeAfter <= vs.MaxStake && (ok ==> poolStakeBefore == pool.Balance) && (!ok ==> poolStakeBefore == 0)
+//@   ensures[delegate-limit] result1 == nil ==> spNumPools(sp) < spMaxDelegates(sp) || spHasPool(sp, t.ClientID)
+//@   modifies nothing
+
+// StakePoolLock locks only a request that passed validation, locks the sender's own transaction and
+// saves the pool only after the lock succeeded.
+//@ func (*StakePoolRequest).decode
+//@   trusted
+//@   modifies spr.$all
+//@ func StakePoolLock
+//@   prop C11
+//@   requires t != nil && balances != nil
+//@   at-call LockPool assert[only-a-validated-request] t.Value > 0 && t.Value >= vs.MinStake && (spNumPools(sp) < spMaxDelegates(sp) || spHasPool(sp, t.ClientID))
+//@   at-call LockPool assert[locks-the-senders-transaction] $arg1 == t
+//@   at-call Save assert[saved-only-after-the-lock] err == nil
+
+// StakePoolUnlock collects, empties and deletes the SENDER's pool only: the pool id and the owner passed
+// to Empty are both the transaction's sender, the payer is the contract the transaction addresses.
+//@ func StakePoolUnlock
+//@   prop C11
+//@   requires t != nil && balances != nil
+//@   at-call UnlockPool assert[collects-the-senders-rewards] $arg1 == t.ClientID
+//@   at-call Empty assert[pays-the-sender-from-the-contract-wallet] $arg1 == t.ToClientID && $arg2 == t.ClientID && $arg3 == t.ClientID
+//@   at-call DeletePool assert[deletes-the-senders-pool] $arg1 == t.ClientID
+//@   at-call Save assert[saved-only-after-empty-and-delete] err == nil
